@@ -58,6 +58,7 @@ struct MMon {
   int id = 0, watched = -1, actor = 0;
   bool alive = true, died = false;
   bool dangling = false;  // its object forgot it or died without it knowing (known-finding territory)
+  bool scoped = false;    // created with REQUIRE_DESTRUCTION (lives as long as its C++ scope), not NAMED_REQUIRE_DESTRUCTION
   int nseq = 0;
   int seq[2] = {-1, -1};
   bool in_seq[2] = {false, false};
